@@ -1,29 +1,35 @@
 """C28 Multi-node clients rotate through nodes regardless of failures."""
-from unittest import mock
-
 from vf.core import Ob
 from vf.xh import assume
 
 TARGETS = ['pytezos.rpc.node.RpcMultiNode.request', 'pytezos.rpc.node.RpcMultiNode.__init__', 'pytezos.rpc.node.RpcNode.request']
-STUBS = ['requests.request -> fake response (status 200 | 404) recording the URL', 'pytezos.rpc.node.sleep -> no-op']
-BOUNDS = {'quick': 'nodes 1..4 (symbolic), 6 requests, every outcome vector symbolic',
-          'thorough': 'nodes 1..4 (symbolic), 9 requests, every outcome vector symbolic'}
+STUBS = ['requests.request -> fake recording the URL; outcome per request chosen by the solver: 200 | 404 (RpcError) | '
+         '500 non-transient (RpcError) | transport exception (requests ConnectionError)',
+         'pytezos.rpc.node.sleep -> no-op', 'json.dumps/pformat in log lines -> constant']
+BOUNDS = {'quick': 'nodes 1..4 (one obligation each), 5 requests, every outcome vector over 4 outcome kinds symbolic',
+          'thorough': 'nodes 1..4, 7 requests, every outcome vector over 4 outcome kinds symbolic'}
 OUTSIDE = ['more than 4 nodes / longer request sequences', 'HTTP transport itself']
-ASSUMPTIONS = ['a failing request is one for which RpcNode.request raises RpcError (HTTP 404)']
+ASSUMPTIONS = ['a failing request is one for which RpcNode.request raises (RpcError for an HTTP error status, or the '
+               'transport exception raised by requests)']
+
+OK, E404, E500, ECONN = range(4)
 
 
 class _Resp:
-    def __init__(self, ok):
-        self.status_code = 200 if ok else 404
-        self.text = ''
-        self.headers = {'content-type': 'application/json'}
+    def __init__(self, kind):
+        self.status_code = {OK: 200, E404: 404, E500: 500}[kind]
+        self.text = 'x'
+        self.headers = {'content-type': 'text/plain'}
 
     def json(self):
         return {}
 
 
 def _drive(n, outcomes):
+    import requests.exceptions
+
     from pytezos.rpc import node as N
+    from vf.stubs import const_stub, json_log_stub, patched
 
     uris = [f'http://node{i}' for i in range(n)]
     hits = []
@@ -31,51 +37,50 @@ def _drive(n, outcomes):
 
     def fake_request(method, url, **kw):
         hits.append(int(url[len('http://node'):].split('/')[0]))
-        return _Resp(next(it))
+        kind = next(it)
+        if kind == ECONN:
+            raise requests.exceptions.ConnectionError('refused')
+        return _Resp(kind)
 
-    saved = N.requests.request, N.sleep
-    N.requests.request, N.sleep = fake_request, (lambda d: None)
-    try:
+    with patched((N.requests, 'request', fake_request), (N, 'sleep', lambda d: None),
+                 (N, 'json', json_log_stub(N.json)), (N, 'pformat', const_stub('<pformat>'))):
         mn = N.RpcMultiNode(uris)
         for _ in outcomes:
             try:
                 mn.request('GET', 'chains/main/blocks/head')
-            except N.RpcError:
+            except (N.RpcError, requests.exceptions.ConnectionError):
                 pass
-    finally:
-        N.requests.request, N.sleep = saved
     return hits
 
 
+def pick(c, n):
+    for k in range(n):
+        if c == k:
+            return k
+    assume(False)
+
+
 def _mk(k):
-    import inspect
-
-    def sym(P, n: int, *outs):
-        assume(1 <= n <= 4)
-        hits = _drive(n, list(outs))
-        return hits == [i % n for i in range(len(outs))]
-
-    # explicit signature with k bool parameters
-    params = ', '.join(f'o{i}: bool' for i in range(k))
-    ns = {'assume': assume, '_drive': _drive}
-    exec(f'def sym(P, n: int, {params}) -> bool:\n'
-         f'    assume(1 <= n <= 4)\n'
-         f'    outs = [{", ".join("o%d" % i for i in range(k))}]\n'
+    params = ', '.join(f'o{i}: int' for i in range(k))
+    ns = {'pick': pick, '_drive': _drive}
+    exec(f'def sym(P, {params}) -> bool:\n'
+         f'    n = P["n"]\n'
+         f'    outs = [pick(o, 4) for o in [{", ".join("o%d" % i for i in range(k))}]]\n'
          f'    hits = _drive(n, outs)\n'
          f'    return hits == [i % n for i in range(len(outs))]\n', ns)
     return ns['sym']
 
 
 def concrete(P, w):
-    k = P['k']
-    outs = [bool(w[f'o{i}']) for i in range(k)]
-    hits = _drive(int(w['n']), outs)
-    exp = [i % int(w['n']) for i in range(k)]
+    k, n = P['k'], P['n']
+    outs = [int(w[f'o{i}']) for i in range(k)]
+    hits = _drive(n, outs)
+    exp = [i % n for i in range(k)]
     return {'ok': hits == exp, 'observed': hits, 'expected': exp}
 
 
 def obligations(tier):
-    k = 6 if tier == 'quick' else 9
-    return [Ob(name=f'rotation/k{k}', engine='xh', sym=_mk(k), concrete=concrete, P={'k': k},
-               timeout=60 if tier == 'quick' else 300, bounds=f'n in 1..4 symbolic, {k} requests, outcomes symbolic',
-               targets=TARGETS, stubs=STUBS)]
+    k = 5 if tier == 'quick' else 7
+    return [Ob(name=f'rotation/n={n}/k={k}', engine='xh', sym=_mk(k), concrete=concrete, P={'k': k, 'n': n},
+               timeout=120 if tier == 'quick' else 900, bounds=f'{n} node(s), {k} requests, outcome of each request symbolic over 4 kinds',
+               targets=TARGETS, stubs=STUBS) for n in (1, 2, 3, 4)]
